@@ -575,3 +575,147 @@ func init() {
 		Doc: "int-to-float overflow threshold: BigInt.Float lets through only exponents e with (mantissa bits kept by Frexp) + e <= 1023, so that math.Ldexp cannot produce +Inf (constants evaluated by the type checker, linear normalisation of the guard)",
 		Run: runBigFloatThreshold})
 }
+
+// ---- C15.R10: decimal rounding of a float never computes with an inexact power of ten ----
+//
+// A float64 cannot hold 10**n exactly for n > 22 or n < 0. Float.M__round__ therefore goes through
+// correctly rounded decimal text (strconv) and exact big.Float comparison; a float64 obtained from
+// decimal text or from math.Pow/Pow10 may only be returned, never be an operand of float arithmetic or of
+// an ordered comparison.
+func runRoundExact(c *Ctx, r *Rep) {
+	p := c.MustPkg("py")
+	info := p.TypesInfo
+	root := c.MethodDecl("py", "Float", "M__round__")
+	if root == nil {
+		r.undecided("roundexact|(py.Float).M__round__", token.NoPos, "method not found")
+		return
+	}
+	// the method and the same-package plain functions it calls (two levels)
+	decls := []*ast.FuncDecl{root}
+	seen := map[*ast.FuncDecl]bool{root: true}
+	for depth := 0; depth < 2; depth++ {
+		for _, fd := range append([]*ast.FuncDecl(nil), decls...) {
+			ast.Inspect(fd.Body, func(n ast.Node) bool {
+				call, ok := n.(*ast.CallExpr)
+				if !ok {
+					return true
+				}
+				cal := Callee(info, call)
+				if cal == nil || cal.Pkg() != p.Types {
+					return true
+				}
+				if sig, _ := cal.Type().(*types.Signature); sig == nil || sig.Recv() != nil {
+					return true
+				}
+				if d := c.Decl(cal); d != nil && d.Body != nil && !seen[d] {
+					seen[d] = true
+					decls = append(decls, d)
+				}
+				return true
+			})
+		}
+	}
+	sources := 0
+	for _, fd := range decls {
+		id := declID(p, fd)
+		r.analysed(id)
+		inexact := func(e ast.Expr) string {
+			call, ok := unparen(e).(*ast.CallExpr)
+			if !ok {
+				return ""
+			}
+			cal := Callee(info, call)
+			if cal == nil || cal.Pkg() == nil {
+				return ""
+			}
+			switch n := cal.Pkg().Path() + "." + cal.Name(); n {
+			case "strconv.ParseFloat", "math.Pow", "math.Pow10":
+				return n
+			}
+			return ""
+		}
+		tainted := map[types.Object]string{}
+		ast.Inspect(fd.Body, func(n ast.Node) bool {
+			switch s := n.(type) {
+			case *ast.AssignStmt:
+				if len(s.Rhs) >= 1 {
+					if src := inexact(s.Rhs[0]); src != "" && len(s.Lhs) >= 1 {
+						sources++
+						if id, ok := s.Lhs[0].(*ast.Ident); ok && id.Name != "_" {
+							if o := info.ObjectOf(id); o != nil {
+								tainted[o] = src
+							}
+						}
+					}
+				}
+			case *ast.ValueSpec:
+				if len(s.Values) >= 1 && len(s.Names) >= 1 {
+					if src := inexact(s.Values[0]); src != "" {
+						sources++
+						if o := info.ObjectOf(s.Names[0]); o != nil {
+							tainted[o] = src
+						}
+					}
+				}
+			}
+			return true
+		})
+		from := func(e ast.Expr) string {
+			e = unparen(e)
+			if src := inexact(e); src != "" {
+				return src
+			}
+			if id, ok := e.(*ast.Ident); ok {
+				return tainted[info.ObjectOf(id)]
+			}
+			if call, ok := e.(*ast.CallExpr); ok && len(call.Args) == 1 {
+				// math.Abs(x), float64(x): same value up to sign/type
+				if tv, ok := info.Types[call.Fun]; ok && tv.IsType() {
+					if id, ok := unparen(call.Args[0]).(*ast.Ident); ok {
+						return tainted[info.ObjectOf(id)]
+					}
+				}
+				if cal := Callee(info, call); cal != nil && cal.Pkg() != nil && cal.Pkg().Path() == "math" && cal.Name() == "Abs" {
+					if id, ok := unparen(call.Args[0]).(*ast.Ident); ok {
+						return tainted[info.ObjectOf(id)]
+					}
+				}
+			}
+			return ""
+		}
+		bad := 0
+		ast.Inspect(fd.Body, func(n ast.Node) bool {
+			be, ok := n.(*ast.BinaryExpr)
+			if !ok {
+				return true
+			}
+			switch be.Op {
+			case token.ADD, token.SUB, token.MUL, token.QUO, token.LSS, token.LEQ, token.GTR, token.GEQ:
+			default:
+				return true
+			}
+			if tv, ok := info.Types[be.X]; !ok || !isFloatT(tv.Type) {
+				return true
+			}
+			for _, side := range []ast.Expr{be.X, be.Y} {
+				if src := from(side); src != "" {
+					bad++
+					r.bad("roundexact|"+id+"|"+exprStr(be), be.Pos(), "`%s` computes with `%s`, a float64 obtained from %s: powers of ten above 10**22 and below 1 are not exact in float64, so a decimal rounding decided this way is wrong for operands at the boundary (round(5e24, -25) must be 1e25); compare exactly (big.Float) or round through decimal text", exprStr(be), exprStr(side), src)
+				}
+			}
+			return true
+		})
+		if bad == 0 {
+			r.ok("roundexact|"+id, fd.Pos(), "no float arithmetic or ordered comparison on a value obtained from strconv.ParseFloat / math.Pow / math.Pow10")
+		}
+	}
+	r.check(sources >= 1, "roundexact|sources", root.Pos(),
+		fmt.Sprintf("%d decimal-to-float64 conversions in float rounding, each only returned", sources),
+		"float rounding no longer goes through strconv.ParseFloat or math.Pow; confirm how the rounded value is produced and update the rule")
+}
+
+func init() {
+	register(&Rule{ID: "C15.R10", Prop: "C15", Floor: 2,
+		Doc: "float round(): a float64 obtained from decimal text or math.Pow/Pow10 (inexact beyond 10**22) is only returned, never an operand of float arithmetic or ordered comparison; the half-unit test is exact",
+		Run: runRoundExact})
+}
